@@ -173,6 +173,38 @@ def run(ctx):
                            logs[1][0], [x[0] for x in logs[1][1]] if isinstance(logs[1][1], list) else logs[1][1]),
                         dict(c.replay(), overrides=specs, with_overrides=logs[0], edited=logs[1]), signature="C16:overrides-lose-or-change-entries")
     ctx.count("override-loads-compared", n_ov)
+    # one ConfigLoader object serving several loads, the first of which uses %import: every load must deliver the same
+    # entries (the schema-level handler included) as a fresh loader does
+    import io
+    from ZConfig.loader import ConfigLoader
+    from .. import pkggen, schemafam as F2
+    pk = pkggen.PkgRoot()
+    try:
+        comp = pk.add_component([F2.TypeD("himp", [F2.KeyD("k", "string", handler="on-k")], implements="hab")])
+        sch = ZConfig.loadSchemaFile(io.StringIO(
+            "<schema handler='top-level'><abstracttype name='hab'/><multisection type='hab' name='*' attribute='items' handler='on-items'/>"
+            "<key name='plain' handler='on-plain'/></schema>"))
+        texts = ["%%import %s\nplain a\n<himp>\nk v\n</himp>\n" % comp, "plain b\n", "%%import %s\n<himp/>\n<himp x/>\n" % comp, "plain c\n"]
+        ld = ConfigLoader(sch)
+        hn = ["top-level", "on-items", "on-plain", "on-k"]
+        for i, t in enumerate(texts):
+            logs = []
+            for loader in (ld, ConfigLoader(sch)):
+                try:
+                    cfg, h = loader.loadFile(io.StringIO(t), cfgstream.URL)
+                    rec = cfgrun.Recorder()
+                    h({n: rec.fn(n) for n in hn})
+                    logs.append((len(h), [n for n, _ in rec.calls]))
+                except Exception as e:
+                    logs.append(("EXC", type(e).__name__))
+            ctx.evaluations += 1
+            ctx.nontriv(("reused-loader-handlers", i))
+            if logs[0] != logs[1]:
+                ctx.violate("load %d through a reused loader delivers %r, through a fresh loader %r" % (i + 1, logs[0], logs[1]),
+                            {"texts": texts, "step": i + 1, "reused": logs[0], "fresh": logs[1]}, signature="C16:reused-loader-entries")
+                break
+    finally:
+        pk.close()
     ok = [c for c in cases if c.out[0] == "ok"]
     if ok:
         ctx.sample({"lines": ok[0].lines, "handler_len": len(ok[0].handler)})
